@@ -29,14 +29,12 @@ CONSTANTS Threads, Main,      \* Main \in Threads : the thread that imported the
           Opts, Vals,         \* global option names, valid values
           Default,            \* Opts -> Vals, module defaults
           Bad, Unknown,       \* an invalid value, an unknown option name
-          MaxNest,            \* Threads -> Nat, bound on open blocks per thread
-          MaxMap              \* bound on the number of options passed at once
+          MaxNest             \* Threads -> Nat, bound on open blocks per thread
 
 ASSUME Main \in Threads /\ Bad \notin Vals /\ Unknown \notin Opts
 
 Names   == Opts \cup {Unknown}
 AllVals == Vals \cup {Bad}
-Maps    == UNION {[D -> AllVals] : D \in {S \in SUBSET Names : Cardinality(S) <= MaxMap}}
 NoMap   == <<>>
 
 Valid(m)   == \A n \in DOMAIN m : n \in Opts /\ m[n] \in Vals       \* check_options(m, all=False) passes
@@ -50,7 +48,6 @@ VARIABLES alive,     \* set of threads that exist
                      \*    snap  : whole store at entry               (ghost)
                      \*    dirty : a set_options ran inside           (ghost)
           last       \* ghost: the last action with its pre-state (kept out of the fingerprint by VIEW)
-vars == <<alive, store, blocks, last>>
 
 NoBlock == [saved |-> NoMap, snap |-> Default, dirty |-> FALSE]
 Rec(k, t, m, ok, how, b, eff, ret) ==
@@ -114,48 +111,64 @@ ExitWith(t, how) ==
        /\ last' = Rec("exit", t, NoMap, TRUE, how, b, Default, NoMap)
   /\ UNCHANGED alive
 
-DoSpawn == \E t \in Threads : Spawn(t)
-DoDie   == \E t \in Threads : Die(t)
-DoCall  == \E t \in Threads, m \in Maps : Call(t, m)
-DoSet   == \E t \in Threads, m \in Maps : SetOptions(t, m)
-DoEnter == \E t \in Threads, m \in Maps : EnterWith(t, m)
-DoExit  == \E t \in Threads, how \in {"normal", "exception"} : ExitWith(t, how)
-
-Next == DoSpawn \/ DoDie \/ DoCall \/ DoSet \/ DoEnter \/ DoExit
-Spec == Init /\ [][Next]_vars
+(* The closed system (an environment that passes every map of at most MaxMap  *)
+(* entries) is OptionsMC.tla; this module is also instantiated on recorded    *)
+(* executions by OptionsTrace.tla and composed with the registry in Threads.  *)
+vars == <<alive, store, blocks, last>>
 View == <<alive, store, blocks>>
 
-(* ---- what C20 states about the store, as invariants over `last` ---------- *)
+(* ---- what C20 states about the store ------------------------------------ *)
+(* Each law is written over L (a record of the action just taken with its     *)
+(* pre-state, i.e. `last`) and a *candidate* post-store `s` of the acting     *)
+(* thread, so that                                                            *)
+(* the same formula serves as an invariant of this model (s = the model's     *)
+(* store) and as a conformance clause of OptionsTrace.tla (s = what           *)
+(* FST.get_options() answered in that thread).                                *)
 TypeOK == /\ alive \subseteq Threads /\ Main \in alive
           /\ \A t \in Threads : store[t] \in [Opts -> Vals] /\ Len(blocks[t]) <= MaxNest[t]
 
-(* an option passed to a call affects only that call                          *)
-CallIsolation ==
-  last.k = "call" =>
-    /\ store = last.pre /\ blocks = last.preB
-    /\ last.ok => \A o \in Opts : last.eff[o] = IF o \in DOMAIN last.m THEN last.m[o] ELSE last.pre[last.t][o]
+Pre(L) == L.pre[L.t]
+
+(* an option passed to a call affects only that call: the store is untouched, *)
+(* and the value the call sees is the given one, else the thread's default    *)
+CallStoreOn(L, s)  == L.k = "call" => s = Pre(L)
+CallEffOn(L, eff)  == (L.k = "call" /\ L.ok) =>
+                     \A o \in Opts : eff[o] = IF o \in DOMAIN L.m THEN L.m[o] ELSE Pre(L)[o]
 
 (* unknown options or invalid values are rejected before anything is changed  *)
-Rejected(m) == \E n \in DOMAIN m : n = Unknown \/ m[n] = Bad
-RejectAtomic ==
-  last.k \in {"call", "set", "enter"} =>
-    /\ last.ok = ~Rejected(last.m)
-    /\ ~last.ok => store = last.pre /\ blocks = last.preB
+Rejected(m)          == \E n \in DOMAIN m : n \notin Opts \/ m[n] \notin Vals
+RejectRaisedOn(L, ok)   == L.k \in {"call", "set", "enter"} => (ok = ~Rejected(L.m))
+RejectStoreOn(L, ok, s) == (L.k \in {"call", "set", "enter"} /\ ~ok) => s = Pre(L)
 
-(* accepted set_options / options(): exactly the named options change, to the given values *)
-SetExact ==
-  (last.k \in {"set", "enter"} /\ last.ok) =>
-    /\ \A o \in Opts : store[last.t][o] = IF o \in DOMAIN last.m THEN last.m[o] ELSE last.pre[last.t][o]
-    /\ \A o \in DOMAIN last.m : last.ret[o] = last.pre[last.t][o]
+(* accepted set_options / options(): exactly the named options change, to the given values; the old ones are returned *)
+SetStoreOn(L, s) == (L.k \in {"set", "enter"} /\ L.ok) =>
+                   \A o \in Opts : s[o] = IF o \in DOMAIN L.m THEN L.m[o] ELSE Pre(L)[o]
+SetRetOn(L, ret) == (L.k \in {"set", "enter"} /\ L.ok) =>
+                   DOMAIN ret = DOMAIN L.m /\ \A o \in DOMAIN L.m : ret[o] = Pre(L)[o]
 
-(* options set through options() are restored exactly on exit, also when the block raises *)
-Restore ==
-  last.k = "exit" => \A o \in DOMAIN last.b.saved : store[last.t][o] = last.b.snap[o]
-UnnamedKept ==
-  last.k = "exit" => \A o \in Opts \ DOMAIN last.b.saved : store[last.t][o] = last.pre[last.t][o]
+(* options set through options() are restored exactly on exit, also when the block raises (`how` plays no role) *)
+RestoreOn(L, s)     == L.k = "exit" => \A o \in DOMAIN L.b.saved : s[o] = L.b.snap[o]
+(* NamedOnlyRestore, the documented WARNING of options() *)
+UnnamedKeptOn(L, s) == L.k = "exit" => \A o \in Opts \ DOMAIN L.b.saved : s[o] = Pre(L)[o]
 (* a block in which set_options was never called leaves the whole store as it found it (any nesting) *)
-BlockTransparent ==
-  (last.k = "exit" /\ ~last.b.dirty) => store[last.t] = last.b.snap
+BlockTransparentOn(L, s) == (L.k = "exit" /\ ~L.b.dirty) => s = L.b.snap
+
+(* nothing a thread does is visible in another thread: S = stores of the other threads after the step *)
+ThreadIsolationOn(L, S) == \A u \in DOMAIN S : u # L.t => S[u] = L.pre[u]
+(* a new thread starts from the module defaults *)
+FreshOn(L, s) == L.k = "spawn" => s = Default
+
+Mine == store[last.t]
+CallIsolation       == CallStoreOn(last, Mine) /\ CallEffOn(last, last.eff) /\ (last.k = "call" => blocks = last.preB)
+RejectAtomic        == RejectRaisedOn(last, last.ok) /\ RejectStoreOn(last, last.ok, Mine) /\
+                       ((last.k \in {"call", "set", "enter"} /\ ~last.ok) => blocks = last.preB)
+SetExact            == SetStoreOn(last, Mine) /\ SetRetOn(last, last.ret)
+Restore             == RestoreOn(last, Mine)
+UnnamedKept         == UnnamedKeptOn(last, Mine)
+BlockTransparent    == BlockTransparentOn(last, Mine)
+ThreadIsolation     == ThreadIsolationOn(last, store) /\ \A u \in Threads \ {last.t} : blocks[u] = last.preB[u]
+FreshThreadDefaults == FreshOn(last, Mine) /\ (last.k = "spawn" => blocks[last.t] = <<>>)
+
 SavedIsEntry ==
   \A t \in Threads : \A i \in 1..Len(blocks[t]) :
      \A o \in DOMAIN blocks[t][i].saved : blocks[t][i].saved[o] = blocks[t][i].snap[o]
@@ -166,11 +179,5 @@ NestedRestore ==
   \A t \in alive : \A i \in 1..Len(blocks[t]) :
      (\A j \in 1..(i - 1) : DOMAIN blocks[t][j].saved \cap DOMAIN blocks[t][i].saved = {}) =>
         \A o \in DOMAIN blocks[t][i].saved : Unwound(store[t], blocks[t])[o] = blocks[t][i].snap[o]
-
-(* nothing a thread does is visible in another thread                          *)
-ThreadIsolation ==
-  \A u \in Threads \ {last.t} : store[u] = last.pre[u] /\ blocks[u] = last.preB[u]
-FreshThreadDefaults ==
-  last.k = "spawn" => store[last.t] = Default /\ blocks[last.t] = <<>>
 
 =============================================================================
